@@ -17,7 +17,7 @@ from ref import secp, sighash, taproot, sign as rsign, tx as rtx, verify
 from checks.lockstep import parse_events
 
 PROP = 'C03'
-TYPES = ['p2pk', 'multisig', 'p2pkh', 'p2sh-multisig', 'p2sh-hashlock', 'p2wpkh', 'p2wsh', 'p2sh-p2wpkh', 'p2sh-p2wsh', 'p2tr-key', 'p2tr-script', 'p2wsh-timelock', 'p2sh-timelock',  'p2wsh-hashlock', 'witness-program', 'odd-spk']
+TYPES = ['p2pk', 'multisig', 'p2pkh', 'p2sh-multisig', 'p2sh-hashlock', 'p2wpkh', 'p2wsh', 'p2sh-p2wpkh', 'p2sh-p2wsh', 'p2tr-key', 'p2tr-script', 'p2wsh-timelock', 'p2sh-timelock',  'p2wsh-hashlock', 'witness-program', 'odd-spk', 'bare-spk']
 SEGWIT = {'witness-program', 'odd-spk', 'p2wpkh', 'p2wsh', 'p2sh-p2wpkh', 'p2sh-p2wsh', 'p2tr-key', 'p2tr-script', 'p2wsh-timelock', 'p2wsh-hashlock'}
 SATS = {
     'p2pk': ['valid', 'wrong-key', 'altered-output', 'altered-sequence', 'altered-locktime', 'non-push-scriptsig', 'leftover-stack', 'unexpected-witness', 'split-conditional', 'altstack-carry', 'wrong-amount',
@@ -41,6 +41,9 @@ SATS = {
     # witness programs other than v0/20, v0/32 and native v1/32: future versions succeed unless discouraged, v0 of another length fails
     'witness-program': ['v2-32-bytes', 'v16-2-bytes', 'v1-33-bytes', 'v1-2-bytes', 'v0-25-bytes', 'v0-2-bytes', 'p2sh-wrapped-v1-32-bytes', 'p2sh-wrapped-v5-20-bytes', 'v2-40-bytes', 'p2sh-wrapped-v1-valid-keypath'],
     # scriptPubKeys that only LOOK like pay-to-script-hash (or are nearly one), spent like a P2SH-wrapped segwit output
+    # bare scripts without signatures: the scriptPubKey may be empty (then the scriptSig is still a scriptSig: push-only rules, its own end)
+    'bare-spk': ['empty-spk/push-only', 'empty-spk/non-push', 'empty-spk/non-push-false', 'empty-spk/unbalanced-if', 'empty-spk/alt-stack', 'nop-spk/non-push', 'nop-spk/push-only', 'op1-spk/empty-scriptsig',
+                 'empty-spk/empty-scriptsig', 'depth-spk/two-pushes', 'empty-spk/hash160-shaped-scriptsig'],
     'odd-spk': ['hash160-equal-nop', 'hash160-equal-verify-1', 'hash160-return', 'hash160-21-bytes', 'hash160-19-bytes'],
     'p2wsh-hashlock': ['undefined-opcode-unexecuted', 'valid', 'wrong-preimage', 'digits-only-preimage', 'two-digit-items', 'p2sh-shaped-witness-script', 'p2sh-shaped-witness-script-inner-fails', 'opcode-name-preimage', 'leftover-stack',
                        'script-521-bytes', 'script-9999-bytes', 'script-10000-bytes', 'script-10001-bytes'],
@@ -61,6 +64,7 @@ FLAGMODS = {
     'p2sh-timelock': ['CHECKSEQUENCEVERIFY', 'CHECKLOCKTIMEVERIFY', 'P2SH'],
     'p2wsh-hashlock': ['WITNESS', 'P2SH', 'CLEANSTACK', 'MINIMALIF'],
     'odd-spk': ['WITNESS', 'CLEANSTACK', 'P2SH'],
+    'bare-spk': ['SIGPUSHONLY+', 'SIGPUSHONLY+', 'SIGPUSHONLY+', 'CLEANSTACK', 'P2SH'],
     'witness-program': ['DISCOURAGE_UPGRADABLE_WITNESS_PROGRAM', 'DISCOURAGE_UPGRADABLE_WITNESS_PROGRAM', 'DISCOURAGE_UPGRADABLE_WITNESS_PROGRAM', 'WITNESS', 'TAPROOT'],
 }
 
@@ -120,6 +124,8 @@ def build(rng, otype, sat):
         wscript = rng.choice([rsign.spk_p2pk(pub), rsign.multisig_script(2, pubs3)])
         redeem = rsign.spk_p2wsh(wscript)
         spk = rsign.spk_p2sh(redeem)
+    elif otype == 'bare-spk':
+        spk = {'empty-spk': b'', 'nop-spk': bytes([OP_NOP]), 'op1-spk': bytes([OP_1]), 'depth-spk': bytes([OP_DEPTH, OP_2, OP_EQUALVERIFY, OP_DROP])}[sat.split('/')[0]]
     elif otype == 'odd-spk':
         redeem = rsign.spk_p2wpkh(pub)
         h = hash160(redeem)
@@ -362,6 +368,10 @@ def build(rng, otype, sat):
             ssig = push_only(r2)
     elif otype == 'p2wsh-timelock':
         wit = [wsig(wscript), wscript]
+    elif otype == 'bare-spk':
+        ssig = {'push-only': bytes([OP_1]), 'non-push': bytes([OP_NOP, OP_1]), 'non-push-false': bytes([OP_1, OP_NOT]), 'unbalanced-if': bytes([OP_1, OP_1, OP_IF]), 'alt-stack': bytes([OP_1, OP_1, OP_TOALTSTACK]),
+                'empty-scriptsig': b'', 'two-pushes': bytes([OP_1]) + push_only(b'\x07' * 20),
+                'hash160-shaped-scriptsig': bytes([OP_HASH160]) + push_only(hash160(bytes([OP_1]))) + bytes([OP_EQUAL])}[sat.split('/')[1]]
     elif otype == 'odd-spk':
         # a correctly signed P2WPKH witness and the "redeem script" in the scriptSig, as for a P2SH-P2WPKH output
         wit = [wsig(rsign.spk_p2pkh(pub)), pub]
